@@ -190,67 +190,7 @@ func c19stress(c *run.Ctx) {
 							}
 						}()
 						atomic.AddInt64(&ops, 1)
-						switch r.Intn(14) {
-						case 0, 1:
-							az := w.Authorize(url.Values{"client_id": {"conf-a"}, "response_type": {pick(r, []string{"code", "code id_token", "code token"})}, "scope": {"openid offline fosite"}, "state": {"state-0123456789"},
-								"nonce": {"nonce-0123456789"}, "redirect_uri": {"https://app-a.example/cb"}, "code_challenge": {s256(goodVerifier)}, "code_challenge_method": {"S256"}}, world.Consent{})
-							p.add(&p.codes, az.Params.Get("code"))
-							p.add(&p.ats, az.Params.Get("access_token"))
-						case 2, 3:
-							if code := p.take(r, &p.codes); code != "" {
-								out := w.Token(url.Values{"grant_type": {"authorization_code"}, "code": {code}, "redirect_uri": {"https://app-a.example/cb"}, "code_verifier": {goodVerifier}}, a)
-								p.add(&p.ats, out.S("access_token"))
-								p.add(&p.rts, out.S("refresh_token"))
-							}
-						case 4, 5, 6:
-							if rt := p.pick(r, &p.rts); rt != "" {
-								out := w.Token(url.Values{"grant_type": {"refresh_token"}, "refresh_token": {rt}}, a)
-								p.add(&p.ats, out.S("access_token"))
-								p.add(&p.rts, out.S("refresh_token"))
-							}
-						case 7:
-							l := &p.ats
-							if r.Intn(2) == 0 {
-								l = &p.rts
-							}
-							if t := p.pick(r, l); t != "" {
-								w.Revoke(url.Values{"token": {t}}, a)
-							}
-						case 8, 9:
-							l := &p.ats
-							if r.Intn(2) == 0 {
-								l = &p.rts
-							}
-							if t := p.pick(r, l); t != "" {
-								w.IntrospectAPI(t, "")
-								if r.Intn(4) == 0 {
-									w.IntrospectHTTP(url.Values{"token": {t}}, a, "")
-								}
-							}
-						case 10:
-							if d := p.take(r, &p.devs); d != "" {
-								out := w.Token(url.Values{"grant_type": {"urn:ietf:params:oauth:grant-type:device_code"}, "device_code": {d}}, a)
-								p.add(&p.rts, out.S("refresh_token"))
-							}
-						case 11:
-							if r.Intn(2) == 0 {
-								out := w.PAR(url.Values{"client_id": {"conf-a"}, "response_type": {"code"}, "scope": {"fosite"}, "state": {"state-0123456789"}, "redirect_uri": {"https://app-a.example/cb"}, "code_challenge": {s256(goodVerifier)}, "code_challenge_method": {"S256"}}, a)
-								p.add(&p.pars, out.S("request_uri"))
-							} else if u := p.take(r, &p.pars); u != "" {
-								az := w.Authorize(url.Values{"client_id": {"conf-a"}, "request_uri": {u}}, world.Consent{})
-								p.add(&p.codes, az.Params.Get("code"))
-							}
-						case 12:
-							out := w.Token(url.Values{"grant_type": {pick(r, []string{"client_credentials", "password"})}, "username": {world.UserName}, "password": {world.UserPass}, "scope": {"offline fosite"}}, a)
-							p.add(&p.ats, out.S("access_token"))
-							p.add(&p.rts, out.S("refresh_token"))
-						case 13:
-							as := sharedAssertion
-							if r.Intn(2) == 0 {
-								as = clientAssertionFor("pkj", keys.ClientRSA[0], "k0")
-							}
-							w.Token(url.Values{"grant_type": {"client_credentials"}, "scope": {"fosite"}}, world.Auth{Mode: "none", Assertion: as})
-						}
+						c19op(w, p, r, a, keys, sharedAssertion)
 					}()
 				}
 			}(g)
@@ -279,6 +219,71 @@ func c19stress(c *run.Ctx) {
 		if round == 0 {
 			c.Sample(map[string]interface{}{"stress_round": map[string]interface{}{"goroutines": nG, "ops": ops, "lazy_config": lazy, "shared_codes": len(p.codes), "shared_refresh_tokens": len(p.rts)}})
 		}
+	}
+}
+
+// c19op performs one randomly chosen API operation of the stress mix on the shared pool.
+func c19op(w *world.World, p *pool, r *rand.Rand, a world.Auth, keys *world.Keys, sharedAssertion string) {
+	switch r.Intn(14) {
+	case 0, 1:
+		az := w.Authorize(url.Values{"client_id": {"conf-a"}, "response_type": {pick(r, []string{"code", "code id_token", "code token"})}, "scope": {"openid offline fosite"}, "state": {"state-0123456789"},
+			"nonce": {"nonce-0123456789"}, "redirect_uri": {"https://app-a.example/cb"}, "code_challenge": {s256(goodVerifier)}, "code_challenge_method": {"S256"}}, world.Consent{})
+		p.add(&p.codes, az.Params.Get("code"))
+		p.add(&p.ats, az.Params.Get("access_token"))
+	case 2, 3:
+		if code := p.take(r, &p.codes); code != "" {
+			out := w.Token(url.Values{"grant_type": {"authorization_code"}, "code": {code}, "redirect_uri": {"https://app-a.example/cb"}, "code_verifier": {goodVerifier}}, a)
+			p.add(&p.ats, out.S("access_token"))
+			p.add(&p.rts, out.S("refresh_token"))
+		}
+	case 4, 5, 6:
+		if rt := p.pick(r, &p.rts); rt != "" {
+			out := w.Token(url.Values{"grant_type": {"refresh_token"}, "refresh_token": {rt}}, a)
+			p.add(&p.ats, out.S("access_token"))
+			p.add(&p.rts, out.S("refresh_token"))
+		}
+	case 7:
+		l := &p.ats
+		if r.Intn(2) == 0 {
+			l = &p.rts
+		}
+		if t := p.pick(r, l); t != "" {
+			w.Revoke(url.Values{"token": {t}}, a)
+		}
+	case 8, 9:
+		l := &p.ats
+		if r.Intn(2) == 0 {
+			l = &p.rts
+		}
+		if t := p.pick(r, l); t != "" {
+			w.IntrospectAPI(t, "")
+			if r.Intn(4) == 0 {
+				w.IntrospectHTTP(url.Values{"token": {t}}, a, "")
+			}
+		}
+	case 10:
+		if d := p.take(r, &p.devs); d != "" {
+			out := w.Token(url.Values{"grant_type": {"urn:ietf:params:oauth:grant-type:device_code"}, "device_code": {d}}, a)
+			p.add(&p.rts, out.S("refresh_token"))
+		}
+	case 11:
+		if r.Intn(2) == 0 {
+			out := w.PAR(url.Values{"client_id": {"conf-a"}, "response_type": {"code"}, "scope": {"fosite"}, "state": {"state-0123456789"}, "redirect_uri": {"https://app-a.example/cb"}, "code_challenge": {s256(goodVerifier)}, "code_challenge_method": {"S256"}}, a)
+			p.add(&p.pars, out.S("request_uri"))
+		} else if u := p.take(r, &p.pars); u != "" {
+			az := w.Authorize(url.Values{"client_id": {"conf-a"}, "request_uri": {u}}, world.Consent{})
+			p.add(&p.codes, az.Params.Get("code"))
+		}
+	case 12:
+		out := w.Token(url.Values{"grant_type": {pick(r, []string{"client_credentials", "password"})}, "username": {world.UserName}, "password": {world.UserPass}, "scope": {"offline fosite"}}, a)
+		p.add(&p.ats, out.S("access_token"))
+		p.add(&p.rts, out.S("refresh_token"))
+	case 13:
+		as := sharedAssertion
+		if r.Intn(2) == 0 {
+			as = clientAssertionFor("pkj", keys.ClientRSA[0], "k0")
+		}
+		w.Token(url.Values{"grant_type": {"client_credentials"}, "scope": {"fosite"}}, world.Auth{Mode: "none", Assertion: as})
 	}
 }
 
